@@ -67,6 +67,10 @@ fn pattern_tags(p: &str) -> Vec<String> {
     if p.contains("((") {
         add("pat:paren-inside-group")
     }
+    // the negation of a group that matches everything
+    if p.contains("!(*)") || (p.contains("!(") && (p.contains("(*|") || p.contains("|*)"))) {
+        add("pat:negated-match-all")
+    }
     // a pattern that ends in an unescaped backslash
     if p.chars().rev().take_while(|c| *c == '\\').count() % 2 == 1 {
         add("pat:trailing-backslash")
